@@ -348,8 +348,11 @@ def generate(repo):
         defs.append(f"Definition mpcache_own_methods : list string := "
                     f"{coq_strs(methods(mp))}.")
         info['abstract'] = abstract
-    item('MPCacheBase.get/set/bulk_set/unset/__iter__/__len__ (abstract) '
-         'and class MPCache', classes)
+    item('abstract MPCacheBase.get MPCacheBase.set MPCacheBase.bulk_set '
+         'MPCacheBase.unset MPCacheBase.__iter__ MPCacheBase.__len__ '
+         'MPCacheBase.__exit__ vs the methods of MPCacheSimple (incl. '
+         'MPCacheSimple.__iter__ MPCacheSimple.__len__) and class MPCache',
+         classes)
 
     # ---- retry parameters of MPCacheSimple.get
     def retry():
